@@ -86,14 +86,46 @@ impl Prop for AddSub {
             let hi = (cal::MAX_DAY - 2) as i128 * tl::DAY_NS + tl::DAY_NS - 1;
             a = Inst::from_i(start.clamp(lo, hi));
         }
-        Ok(Case { a, off: gen::offset(u)?, op })
+        let mut off = gen::offset(u)?;
+        // receivers on the two outermost days at either end (read at offset 0 there)
+        if u.coin(1, 10)? {
+            a.day = if u.coin(1, 2)? { cal::MIN_DAY + u.below(2)? as i64 } else { cal::MAX_DAY - u.below(2)? as i64 };
+            off = 0;
+        }
+        // amounts chosen so that the target lands exactly on a midnight (+- 1 ns)
+        let mut op = op;
+        if u.coin(1, 8)? {
+            let delta = *u.choose(&[0i64, 0, 1, -1])?;
+            let k_days = u.below(3)? as i64;
+            let sub = match &op {
+                Op::Unit { sub, .. } | Op::DateDays { sub, .. } | Op::DtDur { sub, .. } | Op::DtTime { sub, .. } | Op::DateDur { sub, .. } => *sub,
+            };
+            let to_midnight = if sub { a.ns } else { 86_400_000_000_000 - a.ns } + delta;
+            if to_midnight >= 0 {
+                match &mut op {
+                    Op::DtTime { tns, .. } if to_midnight < 86_400_000_000_000 => *tns = to_midnight as u64,
+                    Op::DtDur { secs, nanos, .. } => {
+                        let total = to_midnight as i128 + k_days as i128 * 86_400_000_000_000;
+                        *secs = (total / 1_000_000_000) as u64;
+                        *nanos = (total % 1_000_000_000) as u32;
+                    }
+                    Op::Unit { unit, count, .. } if *unit == 6 && to_midnight <= u32::MAX as i64 => *count = to_midnight as u32,
+                    Op::Unit { unit, count, .. } if *unit == 3 && to_midnight % 1_000_000_000 == 0 => *count = (to_midnight / 1_000_000_000) as u32,
+                    _ => {}
+                }
+            }
+        }
+        Ok(Case { a, off, op })
     }
     fn check(c: &Case, cx: &mut Cx) -> Verdict {
         if !c.a.valid() || c.off.abs() > 86_399 {
             return Verdict::Skip("malformed case");
         }
-        if c.a.day < cal::MIN_DAY + 2 || c.a.day > cal::MAX_DAY - 2 {
-            return Verdict::Skip("receiver within 2 days of a range end");
+        if c.off != 0 && (c.a.day < cal::MIN_DAY + 2 || c.a.day > cal::MAX_DAY - 2) {
+            return Verdict::Skip("offset-carrying receiver within 2 days of a range end");
+        }
+        if c.a.day <= cal::MIN_DAY + 1 || c.a.day >= cal::MAX_DAY - 1 {
+            cx.nt("receiver_on_an_outermost_day");
         }
         let ia = c.a.i();
         let off = Offset::Fixed(c.off);
@@ -246,7 +278,7 @@ impl Prop for AddSub {
                     }
                     _ => unreachable!(),
                 };
-                if (c.a.ns ^ c.a.day) % 4 == 0 {
+                if (c.a.ns ^ c.a.day) % 4 == 0 || target.rem_euclid(tl::DAY_NS) <= 1 || target.rem_euclid(tl::DAY_NS) == tl::DAY_NS - 1 {
                     if let Err(why) = canonical_dt(&r) {
                         panic!("non-canonical result: {}", why);
                     }
